@@ -13,7 +13,7 @@ package authboss
 //@        ite(len(r.URL.RawQuery) != 0, "?" ++ r.URL.RawQuery, "")
 //@
 //@ func MountedMiddleware2#1#1
-//@   property C08 C13 C17
+//@   property C08 C13 C17 C18
 //@   ensures[C17] no_secret_leak: secrets_clean
 //@   requires 0 <= reqs && reqs <= 3
 //@   -- the wrapped handler runs only with the requirements met and a loaded user in the context
@@ -67,9 +67,12 @@ package authboss
 //@ func MustClientStateResponseWriter
 //@   property C11
 //@   option summary callers use this contract, not the body
-//@   invariant loop#1 unwrapping: true
+//@   invariant loop#1 unwrapping: implements(w0, "ptr.authboss.ClientStateResponseWriter") ==> w == w0
 //@   -- the writer handed back is a real *ClientStateResponseWriter (never nil); not finding one panics
 //@   ensures finds_writer: result != nil
+//@   -- the nearest writer: when what the handler holds is a client-state writer, that is the one
+//@   -- its changes are queued on (stacked middlewares - two instances - keep their own state)
+//@   ensures nearest_writer: implements(w, "ptr.authboss.ClientStateResponseWriter") ==> result == w
 //@
 //@ func setState
 //@   property C11 C01 C02 C05 C07 C09 C10 C12 C13 C14
@@ -310,3 +313,18 @@ package authboss
 //@   property C08 C13
 //@   -- the handler that is returned guards exactly the handler that was passed in
 //@   ensures guards_given_handler: bound(result, "next") == next && bound(result, "reqs") == reqs && bound(result, "failResponse") == failResponse
+//
+//@ func ParseOAuth2PID
+//@   property C14 C07
+//@   -- what a storer gets back from an identifier is a pair that composes to exactly that
+//@   -- identifier (so that, with pid_injective, it is the pair the identifier was made from)
+//@   ensures parse_inverts_make: result.2 == nil ==> pid == "oauth2;;" + result.0 + ";;" + result.1
+//
+//@ func (*Authboss).loadModule
+//@   property C10 C11 C20
+//@   -- every instance gets module objects of its own: a handler mounted by one instance never
+//@   -- runs with another instance's configuration (its whitelist, its stores, its paths)
+//@   option summary callers use this contract, not the body
+//@   option trusted body not verified (builds the per-instance copy of the registered module through package reflect)
+//@   option bounded module_load 40 instances, modules registered by pointer and by value
+//@   ensures error_is_the_modules: true
